@@ -27,7 +27,7 @@ func run4(f []string) (string, bool) {
 	case "nraw":
 		return suiteOut(otp.NewRawSuite(string(unhx(f[1])))), true
 	case "praw": // the parser alone (hook), also for registered names
-		c, err := otp.VerifParseRawSuite(string(unhx(f[1])))
+		c, err := hkParseRawSuite(string(unhx(f[1])))
 		if err != nil {
 			return errOut(err), true
 		}
@@ -45,7 +45,7 @@ func run4(f []string) (string, bool) {
 		// the advertised list must agree with the registry (hook), the known-suite test and lookup
 		names := otp.ListSuites()
 		sort.Strings(names)
-		reg := otp.VerifKnownSuites()
+		reg := hkKnownSuites()
 		if len(reg) != len(names) {
 			return "bad:list-and-registry-differ-in-size", true
 		}
